@@ -346,7 +346,8 @@ def collection_cell(P, A):
         read = {'string': mt.MosFile.from_string, 'file': mt.MosFile.from_file,
                 's3': lambda key: mt.MosFile.from_s3('bucket', key)}[src]
         ro_f = read(handles[0])
-        order = sorted(range(k), key=lambda j: int(mids[j]))
+        supplied_msgs = [i - 1 for i in perm if i != 0]
+        order = sorted(supplied_msgs, key=lambda j: int(mids[j]))     # stable: ties keep the supplied order
         fold_exc, n_fail = None, 0
         with warnings.catch_warnings(record=True) as rec_f:
             warnings.simplefilter('always')
@@ -617,7 +618,7 @@ def reader_cell(P, A):
             b = ro_builder([sid, 'zz'], mid, ro_id=rid)
         else:
             b = msg_builder(kind, sid, mid, new_id='nn', ro_id=rid)
-        h = W.doc(b, kind=src)
+        h = W.doc(b, kind=src, name=P.get('key_name') if src == 's3' else None)
         make = {'string': lambda: mc_mod.MosReader.from_string(h), 'file': lambda: mc_mod.MosReader.from_file(h),
                 's3': lambda: mc_mod.MosReader.from_s3('bucket', h)}[src]
         out = call(make, exc)
@@ -924,6 +925,57 @@ def _cli_merge_s3(P, A, W, scen, inc, nonstrict):
     if B.Ctx.replay:
         B.note(sig=sig, observed={'returned': out.result, 'stderr': err, 'raised': B.conc(out.exc)},
                expected={'library': B.conc(ref.exc) if ref.raised else 'ok'}, argv=argv)
+    return sig is None
+
+
+def cli_twice_cell(P, A):
+    """detect / inspect twice in one process on the same path whose content changed in between: the second
+    run reports what the file holds now."""
+    cmd = P['cmd']
+    k1, k2 = FILE_KINDS[A['k0']], FILE_KINDS[A['k1']]
+    sig = None
+    with World() as W:
+        name = 'work.mos.xml'
+        def put(kind):
+            # (re)create the file 'work.mos.xml' holding a document of the given kind
+            if W.replay:
+                tmp = file_of_kind(W, kind, 0)
+                dst = os.path.join(W._tmpdir(), name)
+                if os.path.isdir(dst):
+                    os.rmdir(dst)
+                elif os.path.exists(dst):
+                    os.remove(dst)
+                if kind == 'missing':
+                    return dst
+                os.rename(tmp, dst)
+                return dst
+            h = file_of_kind(W, kind, 0)
+            dst = '/virtual/' + name
+            W.builders.pop(dst, None)
+            W.fail.pop(dst, None)
+            if h in W.builders:
+                W.builders[dst] = W.builders.pop(h)
+            if h in W.fail:
+                W.fail[dst] = W.fail.pop(h)
+            return dst
+        outs = []
+        for kind in (k1, k2):
+            path = put(kind)
+            with Capture(W) as cap:
+                out = call(lambda: W.cli.main([cmd, '-f', path]), W.exc)
+            printed = [a[0] for a in cap.prints if len(a) == 1 and isinstance(a[0], str)]
+            outs.append((kind, path, out, [r for r in printed if r.startswith(path + ': ')], cap.err.getvalue()))
+        B.hit()
+        for kind, path, out, records, err in outs:
+            want = ['%s: %s' % (path, VALID_CLASS[kind])] if kind in VALID_CLASS else []
+            if out.raised:
+                sig = 'raised-' + type(out.exc).__name__
+            elif records != want:
+                sig = 'second-run-reports-stale-content' if kind == k2 and (kind, path, out, records, err) is outs[1] else 'wrong-report'
+            elif kind not in VALID_CLASS and path not in err and not records:
+                sig = sig or ('invalid-file-not-marked' if path not in err else None)
+        if B.Ctx.replay:
+            B.note(sig=sig, observed=[(k, r, e) for k, p_, o, r, e in outs], expected='each run reports the current content')
     return sig is None
 
 
